@@ -571,5 +571,6 @@ func runC12(c *kit.Ctx) {
 			c.Sample(map[string]interface{}{"transport": transport, "sequence": names})
 		}
 	}
+	c12RunWSP(c, env)
 	c.Note("exhaustive", false)
 }
